@@ -434,6 +434,12 @@ def plan(ctx):
                         loops=True, kind='loop-contract', defines=['C18_PARSE=1'], min_post=6, timeout=300, fallback_unwind=10,
                         replay=Replay(driver='C18/time.cc', mode='parse_size', sources=ALL_LIB, small_define='VERIF_SMALL'),
                         clause_note='contracts/C18_size.h: scan stays inside the buffer; maximal digit prefix folded by value*10+digit; blanks; unit letter -> power of 1024'))
+    # bounded falsifier: the same contract on the loop-unwound code for buffers of at most 8 bytes (counterexamples of the loop-contract
+    # proof start from an arbitrary invariant state and cannot be replayed; these are real executions)
+    groups.append(Group(name='Strings.parse_size[unwound]', harness='harness/C18/size.c', entry='h_parse_size', function='parse_size', enforce='parse_size',
+                        defines=['C18_PARSE=1', 'VERIF_SMALL=1'], kind='bounded', bound='buffers of at most 8 bytes (7 characters + NUL), loops unwound',
+                        cbmc_flags=['--unwind', '9', '--unwinding-assertions'], min_post=6, timeout=300, first='cadical', stage1=30,
+                        replay=Replay(driver='C18/time.cc', mode='parse_size', sources=ALL_LIB)))
     # cvc5 with bit-vector arithmetic solved as integer arithmetic (tools/C18_cvc5_int.sh): quotient/remainder facts
     INTBLAST = dict(engines=['cvc5'], cbmc_flags=['--external-smt2-solver', os.path.join(VERIF, 'tools', 'C18_cvc5_int.sh')], stage1=120, timeout=120)
     ut = timeval_unit(ctx, src)
@@ -459,6 +465,18 @@ def plan(ctx):
                         enforce='c18_lemma_cong24', defines=['DUR_LO=0', 'DUR_HI=0'], kind='lemma'))
     groups.append(Group(name='lemma.dhm', harness='harness/C18/duration.c', entry='h_lemma_dhm', function='days/hours/minutes decomposition (arithmetic lemma)',
                         enforce='c18_lemma_dhm', replace=['c18_lemma_nested_div', 'c18_lemma_cong24'], defines=['DUR_LO=0', 'DUR_HI=0'], kind='lemma', min_post=8, **INTBLAST))
+    if ctx.tier == 'thorough':
+        # more boundary bands as independent bounded falsifiers; cheap unbounded groups must be answered identically by two engines
+        for nm, lo in [('band_1s', 0), ('band_1min', 58 * US), ('band_2d', (2 * 86400 - 2) * US), ('band_max', 2 ** 64 - 4 * US)]:
+            groups.append(Group(name='Time.format_duration[%s]' % nm, harness='harness/C18/duration.c', entry='h_format_duration',
+                                function='format_duration', enforce='format_duration', replace=['c18_fdiv', 'c18_lemma_dhm'],
+                                defines=['DUR_LO=%dull' % lo, 'DUR_HI=%dull' % (lo + 4 * US - 1)], kind='bounded', tier='thorough',
+                                bound='usecs in [%d, %d] (4 s at microsecond resolution), all precisions' % (lo, lo + 4 * US - 1),
+                                first='cadical', stage1=15, timeout=600, replay=RP))
+        for g in groups:
+            if g.engines is None and g.kind != 'bounded':
+                g.two_engines = True
+            g.timeout = max(g.timeout, 900)
     return groups
 
 
